@@ -37,7 +37,7 @@ Definition root_nodes (uroot : option (list N)) (t : tnode) : list fnode :=
   match t with
   | TNode _ mode uid gid _ _ children =>
     {| f_path := []; f_mode := mode; f_uid := uid; f_gid := gid;
-       f_devno := 0; f_extra := None; f_implicit := false |} ::
+       f_devno := 0; f_extra := None; f_implicit := false; f_hard := false |} ::
     children_nodes uroot [] children
   end.
 
